@@ -118,8 +118,8 @@ func genC13(p *Plan, r *RNG) {
 		case w < 62:
 			o := Op{Actor: "srv", Kind: "srv_data", At: g, A: OpArgs{Peer: peer, Len: r.Range(9, 300)}}
 			if r.Chance(1, 6) {
-				o.A.Content = r.Pick([]string{"stunlike", "stunvalid", "chanlike", "cookie0", "zero"})
-				o.A.Len = r.PickInt([]int{4, 8, 16, 20, 24, 100})
+				o.A.Content = r.Pick([]string{"stunlike", "stunvalid", "chanlike", "cookie0"})
+				o.A.Len = r.PickInt([]int{16, 20, 24, 100}) // (long enough to stay unique: the oracle tells payloads apart by their bytes)
 			}
 			p.Ops = append(p.Ops, o)
 		case w < 74:
@@ -132,8 +132,8 @@ func genC13(p *Plan, r *RNG) {
 			if r.Chance(1, 4) {
 				// payloads that look like something else: whatever is inside a ChannelData frame
 				// or a DATA attribute is the application's
-				o.A.Content = r.Pick([]string{"stunlike", "stunvalid", "chanlike", "cookie0", "zero"})
-				o.A.Len = r.PickInt([]int{4, 8, 16, 20, 24, 100})
+				o.A.Content = r.Pick([]string{"stunlike", "stunvalid", "chanlike", "cookie0"})
+				o.A.Len = r.PickInt([]int{16, 20, 24, 100}) // (long enough to stay unique: the oracle tells payloads apart by their bytes)
 			}
 			p.Ops = append(p.Ops, o)
 		case w < 82:
